@@ -100,17 +100,61 @@ func propC10(a *Analysis, r *Registry) {
 			fc := X.Under(fn, X.AssumeEq(env.MustParse("s.Sorted"), X.S.True()),
 				X.AssumeCond(env.MustParse("s.Weights==nil"), false))
 			// the scan may sit in Quantile or in a helper it delegates the weighted case to
-			var inLoop, last *ssa.Return
+			// the alternatives of the result: one per return, and — when the returned element's index
+			// is merged at the loop's exits (idx = i; break) — one per incoming edge of that merge
+			type alt struct {
+				val *RF
+				blk *ssa.BasicBlock
+				pos string
+				// the branch taken out of blk on the way to the merge, if blk ends in one
+				edgeCond *RF
+			}
+			var inLoop, last *alt
 			cands := append([]*FC{fc}, fc.TailCallees()...)
 			for _, c := range cands {
 				inLoop, last = nil, nil
+				var alts []*alt
 				for _, rt := range c.Ctx.Returns() {
-					if c.Ctx.LoopOf(rt.Block()) != nil || len(c.Ctx.Facts(rt.Block())) > 0 && hasAtomPrefix(c.Val(rt.Results[0]), "phi:") {
-						if at := c.Val(rt.Results[0]).SingleAtom(); at != nil && at.Name == "idx" {
-							inLoop = rt
+					v := c.Val(rt.Results[0])
+					expanded := false
+					if at := v.SingleAtom(); at != nil && at.Name == "idx" {
+						if pa := at.Args[1].SingleAtom(); pa != nil {
+							if ph, ok := X.phiOf[pa.ID]; ok && ph.Parent() == c.Fn {
+								vals, preds := c.Ctx.PhiLiveEdges(ph)
+								header := false
+								for _, pr := range preds {
+									if c.Ctx.Dominates(ph.Block(), pr) {
+										header = true
+									}
+								}
+								if !header {
+									for k, pv := range vals {
+										alts = append(alts, &alt{X.S.MakeFn("idx", at.Args[0], c.Val(pv)), preds[k], a.W.InstrPos(rt), c.edgeCond(preds[k], ph.Block())})
+									}
+									expanded = true
+								}
+							}
 						}
-					} else if at := c.Val(rt.Results[0]).SingleAtom(); at != nil && at.Name == "idx" {
-						last = rt
+					}
+					if !expanded {
+						alts = append(alts, &alt{v, rt.Block(), a.W.InstrPos(rt), nil})
+					}
+				}
+				for _, al := range alts {
+					at := al.val.SingleAtom()
+					if at == nil || at.Name != "idx" {
+						continue
+					}
+					if al.edgeCond != nil {
+						if hasAtomPrefix(al.val, "phi:") {
+							inLoop = al
+						} else {
+							last = al
+						}
+					} else if c.Ctx.LoopOf(al.blk) != nil || len(c.Ctx.Facts(al.blk)) > 0 && hasAtomPrefix(al.val, "phi:") {
+						inLoop = al
+					} else {
+						last = al
 					}
 				}
 				if inLoop != nil && last != nil {
@@ -125,16 +169,16 @@ func propC10(a *Analysis, r *Registry) {
 				}
 				anchorFail("weighted scan: returns not found in %s (loops %d): %s", a.W.FuncName(fc.Fn), len(fc.Ctx.Loops()), strings.Join(vs, " | "))
 			}
-			rv := fc.Val(inLoop.Results[0]).SingleAtom()
+			rv := inLoop.val.SingleAtom()
 			if rv == nil || rv.Name != "idx" {
 				anchorFail("weighted scan does not return an element")
 			}
 			i := rv.Args[1]
 			env.Set("i", i, nil)
-			b.Eq(rB, name+"/weighted/returns", a.W.InstrPos(inLoop), fc.Val(inLoop.Results[0]), env, "s.Xs[i]")
+			b.Eq(rB, name+"/weighted/returns", inLoop.pos, inLoop.val, env, "s.Xs[i]")
 			// the guard of that return: target' < 0
 			var tnext *RF
-			for _, f := range fc.Ctx.Facts(inLoop.Block()) {
+			for _, f := range fc.Ctx.Facts(inLoop.blk) {
 				c := fc.Val(f.Cond).SingleAtom()
 				if f.Val && c != nil && c.Name == "cmp<" {
 					if z, ok := c.Args[1].IsConst(); ok && z.Sign() == 0 {
@@ -142,8 +186,15 @@ func propC10(a *Analysis, r *Registry) {
 					}
 				}
 			}
+			if inLoop.edgeCond != nil {
+				if c := inLoop.edgeCond.SingleAtom(); c != nil && c.Name == "cmp<" {
+					if z, ok := c.Args[1].IsConst(); ok && z.Sign() == 0 {
+						tnext = c.Args[0]
+					}
+				}
+			}
 			if tnext == nil {
-				r.Fail(rB, name+"/weighted/guard", a.W.InstrPos(inLoop), "the element is not returned under `target < 0`")
+				r.Fail(rB, name+"/weighted/guard", inLoop.pos, "the element is not returned under `target < 0`")
 				return
 			}
 			env.Set("w", env.MustParse("s.Weights[i]"), nil)
@@ -152,7 +203,7 @@ func propC10(a *Analysis, r *Registry) {
 			env.Set("target", target, nil)
 			b.EqUnder(rB, name+"/weighted/target-init", b.pos(fn), fc, ti, env, "s.Weight()*q")
 			b.EqRF(rB, name+"/weighted/target-step", b.pos(fn), tn, tnext, "target -= Weights[i], tested after the subtraction")
-			b.Eq(rB, name+"/weighted/fallthrough", a.W.InstrPos(last), fc.Val(last.Results[0]), env, "s.Xs[len(s.Xs)-1]")
+			b.Eq(rB, name+"/weighted/fallthrough", last.pos, last.val, env, "s.Xs[len(s.Xs)-1]")
 		})
 	}
 	if fn := b.Fn(rB, "stats.(Sample).IQR"); fn != nil {
